@@ -386,26 +386,78 @@ func bulkDeleteTargets(live []uint32, pattern int, a, b int) []uint32 {
 	return out
 }
 
+// deleteAllPlan: Txn.DeleteAll over a selection: everything (pattern 9, or no usable name), or
+// the rows selected by With(name) / Without(name) where name is a value column (presence), a
+// bool column (truth) or an index of the machine. Returns the rows the model expects to go.
+func (mc *Machine) deleteAllPlan(pattern, a, b int) (name string, without bool, targets []uint32) {
+	var names []string
+	for i, cs := range mc.Sch.Cols {
+		if mc.M.ColLive[i] && cs.Kind != KKey {
+			names = append(names, cs.Name)
+		}
+	}
+	for _, st := range mc.Indexes {
+		names = append(names, st.Spec.Name)
+	}
+	if pattern == 8 && len(names) > 0 {
+		name = names[a%len(names)]
+		without = b%2 == 1
+	}
+	set, _ := mc.nameSet(name)
+	for _, off := range mc.M.Live() {
+		if name == "" || set[off] != without {
+			targets = append(targets, off)
+		}
+	}
+	return
+}
+
+// runDeleteAll runs one transaction [filter; DeleteAll] that commits, or fails afterwards.
+func runDeleteAll(c *column.Collection, name string, without, fail bool) error {
+	return c.Query(func(txn *column.Txn) error {
+		switch {
+		case name != "" && without:
+			txn.Without(name)
+		case name != "":
+			txn.With(name)
+		}
+		txn.DeleteAll()
+		if fail {
+			return errRollback
+		}
+		return nil
+	})
+}
+
 // ActBulkDelete deletes a patterned set of rows in one transaction.
 func (mc *Machine) ActBulkDelete(t *rapid.T) {
 	live := mc.M.Live()
 	if len(live) == 0 {
 		t.Skip("nothing to delete")
 	}
-	pattern := rapid.IntRange(0, 7).Draw(t, "pattern")
+	pattern := rapid.IntRange(0, 9).Draw(t, "pattern")
 	a, b := rapid.IntRange(0, 1<<20).Draw(t, "a"), rapid.IntRange(0, 1<<20).Draw(t, "b")
-	targets := bulkDeleteTargets(live, pattern, a, b)
-	mc.logf("bulkDelete pattern=%d a=%d b=%d (%d of %d rows)", pattern, a, b, len(targets), len(live))
 	bad := uint32(0)
 	nbad := 0
-	_ = mc.C.Query(func(txn *column.Txn) error {
-		for _, off := range targets {
-			if !txn.DeleteAt(off) {
-				bad, nbad = off, nbad+1
+	var targets []uint32
+	if pattern >= 8 {
+		name, without, tg := mc.deleteAllPlan(pattern, a, b)
+		targets = tg
+		mc.logf("bulkDelete DeleteAll name=%q without=%v (%d of %d rows)", name, without, len(targets), len(live))
+		runDeleteAll(mc.C, name, without, false)
+		mc.flag("delete-all")
+	} else {
+		targets = bulkDeleteTargets(live, pattern, a, b)
+		mc.logf("bulkDelete pattern=%d a=%d b=%d (%d of %d rows)", pattern, a, b, len(targets), len(live))
+		_ = mc.C.Query(func(txn *column.Txn) error {
+			for _, off := range targets {
+				if !txn.DeleteAt(off) {
+					bad, nbad = off, nbad+1
+				}
 			}
-		}
-		return nil
-	})
+			return nil
+		})
+	}
 	if nbad > 0 {
 		mc.fail(t, "bulk delete: DeleteAt returned false for %d live rows (e.g. %d)", nbad, bad)
 	}
